@@ -1,15 +1,27 @@
 // Package props holds one workload + oracle per property.
 package props
 
-import "verifharness/fw"
+import (
+	"time"
+
+	"verifharness/fw"
+)
 
 var registry = map[string]func() *fw.Prop{}
 
 func register(id string, f func() *fw.Prop) { registry[id] = f }
 
+// gadget-level checks have small cases: a case running for minutes means runaway values
+// (e.g. a corrupted shared constant); its verdict is inconclusive and the run goes on.
+var shortCase = map[string]bool{"C07": true, "C08": true, "C09": true, "C10": true, "C11": true, "C12": true, "C15": true, "C16": true, "C18": true, "C19": true}
+
 func Get(id string) *fw.Prop {
 	if f, ok := registry[id]; ok {
-		return f()
+		p := f()
+		if p.CaseTimeout == 0 && shortCase[id] {
+			p.CaseTimeout = 6 * time.Minute
+		}
+		return p
 	}
 	return nil
 }
